@@ -22,10 +22,13 @@ BUILD_ERR=$(echo "$SUITE" | grep -c "^error\[")
 SUITE_OK=no; if [ "$BUILD_ERR" = 0 ] && [ "$NFAIL" = "$NBASE" ] && [ "$NBASE" = 3 ]; then SUITE_OK=yes; fi
 # (2) demo with the change
 cp "$D" konst/tests/seed_demo.rs
-cargo test --offline -p konst --features rust_1_83,alloc --test seed_demo > /tmp/seed_demo_with.txt 2>&1; RC_WITH=$?
+DEMO_CMD="cargo test --offline -p konst --features rust_1_83,alloc --test seed_demo"
+# MIRI_DEMO=1: the demonstration only fails under the interpreter (UB without a natively visible wrong result)
+if [ "${MIRI_DEMO:-0}" = 1 ]; then DEMO_CMD="env MIRIFLAGS=-Zmiri-disable-isolation CARGO_TARGET_DIR=/tmp/seedwt_target_miri cargo +nightly miri test --offline -p konst --features rust_1_83,alloc --test seed_demo"; fi
+$DEMO_CMD > /tmp/seed_demo_with.txt 2>&1; RC_WITH=$?
 # (3) demo without the change
 git checkout -q -- . ; cp "$D" konst/tests/seed_demo.rs
-cargo test --offline -p konst --features rust_1_83,alloc --test seed_demo > /tmp/seed_demo_without.txt 2>&1; RC_WITHOUT=$?
+$DEMO_CMD > /tmp/seed_demo_without.txt 2>&1; RC_WITHOUT=$?
 rm -f konst/tests/seed_demo.rs; git checkout -q -- .; git clean -fdq
 echo "confirm $ID-$K: suite_ok=$SUITE_OK (failed tests: $NFAIL, baseline: $NBASE) demo_with_rc=$RC_WITH demo_without_rc=$RC_WITHOUT"
 CONFIRMED=no; if [ $SUITE_OK = yes ] && [ $RC_WITH != 0 ] && [ $RC_WITHOUT = 0 ]; then CONFIRMED=yes; fi
@@ -48,7 +51,7 @@ notes=open(out+'/notes.md').read() if __import__('os').path.exists(out+'/notes.m
 meta={"property":pid,"seed":f"{pid}-{k}","source":"independent sub-agent given only the property text and a scratch worktree","repo_head_when_confirmed":head,
  "needs_to_manifest":notes.strip()[:900],
  "confirmed":{"suite_passes_with_change":True,"suite_failures_with_change":int(nfail),"baseline_failures":3,"demo_fails_with_change":True,"demo_passes_without_change":True,
-   "commands":["cargo test --workspace --no-fail-fast --offline","cargo test --offline -p konst --features rust_1_83,alloc --test seed_demo (with and without patch.diff)"]},
+   "commands":["cargo test --workspace --no-fail-fast --offline",("cargo +nightly miri test" if __import__("os").environ.get("MIRI_DEMO")=="1" else "cargo test") + " --offline -p konst --features rust_1_83,alloc --test seed_demo (with and without patch.diff)"]},
  "checks_run":[{"check":c,"tier":"quick","exit":int(open(f'/tmp/seed_check_{c}.rc').read()),
     "first_violation":next((l.strip() for l in open(f'/tmp/seed_check_{c}.txt',errors='replace').read().split('\n') if l.startswith('  ')),"")[:300]} for c in res.split()]}
 json.dump(meta,open(out+'/meta.json','w'),indent=1)
